@@ -65,6 +65,14 @@ Theorem pauli_prod_fails_iff : forall l, pauli_prod l = None <-> l = [] \/ In No
 Proof. exact pauli_prod_none. Qed.
 Print Assumptions pauli_prod_fails_iff.
 
+(* _correct_samples: the amplitude of (frame . psi) at bit string b is, up to a sign, the amplitude of psi at
+   b xor x-record; hence xor-ing a computational-basis sample with the recorded x undoes the frame
+   (the z record and every phase are invisible to such a sample) -- every frame, any number of wires *)
+Theorem corrected_sample_undoes_frame : forall F psi b, exists s, pm1 s /\
+  sem_frame F psi b = gmul s (psi (fun i => xorb (b i) (fst (nth i F pI)))).
+Proof. exact frame_amplitude. Qed.
+Print Assumptions corrected_sample_undoes_frame.
+
 (* non-vacuity: a 3-wire circuit and frame meeting the hypotheses, with the tracked frame computed *)
 Example hyps_satisfiable :
   Forall (gate_ok 3) [GH 0; GCX 0 2; GS 2; GCX 2 1] /\
